@@ -39,7 +39,7 @@ Qed.
 (* hence refinement of a located candidate never fails on a non-empty region with increasing levels *)
 Theorem candidate_refines lsq hyp dev g st vmin_o vmax_o adjust c : lsq_spec lsq -> located g c ->
   length (d_pos c) = g_dim g ->
-  (exists vmin vmax, levels vmin_o vmax_o st = Some (vmin, vmax) /\ (adjust = false \/ vmin < vmax)) ->
+  (adjust = false \/ level_min vmin_o st < level_max vmax_o st) ->
   exists r, refine lsq hyp dev g st vmin_o vmax_o adjust c = ROk r.
 Proof.
   intros Hs Hl Hd Hlev.
